@@ -39,3 +39,435 @@ package starkcurve
 //@ ensures[result] result == p
 //@ modifies p
 //@ end
+
+// Straus-Shamir joint multiplication: both scalars are reduced modulo r by Element.SetBigInt (assumed contract) and
+// the result is the combination with the reduced scalars, for all integers s1, s2 (any sign, any length).
+// a1, a2, s1, s2 are never written (frame clause), so aliasing among them is the case of equal values.
+//@ func G1Jac.JointScalarMultiplication
+//@ layer module G1Jac G1Affine bigint big.Int
+//@ option distinct s1 s2
+//@ ghost r0 = 0
+//@ loop 0
+//@ + invariant[words] -1 <= i && i <= 3 && res == (ite(i == 3, 0, ite(i == 2, s[0][3], ite(i == 1, s[0][2] + s[0][3]*18446744073709551616, ite(i == 0, s[0][1] + s[0][2]*18446744073709551616 + s[0][3]*340282366920938463463374607431768211456, s[0][0] + s[0][1]*18446744073709551616 + s[0][2]*340282366920938463463374607431768211456 + s[0][3]*6277101735386680763835789423207666416102355444464034512896)))))*table[0] + (ite(i == 3, 0, ite(i == 2, s[1][3], ite(i == 1, s[1][2] + s[1][3]*18446744073709551616, ite(i == 0, s[1][1] + s[1][2]*18446744073709551616 + s[1][3]*340282366920938463463374607431768211456, s[1][0] + s[1][1]*18446744073709551616 + s[1][2]*340282366920938463463374607431768211456 + s[1][3]*6277101735386680763835789423207666416102355444464034512896)))))*table[3]
+//@ + ghost-post r0 = res
+//@ cut after def mask #2
+//@ + lemma divsplit(s[0][i], 4611686018427387904, 4)
+//@ + lemma divsplit(s[1][i], 4611686018427387904, 4)
+//@ + invariant[window1] 0 <= i && i <= 3 && res == 4*r0 + (s[0][i]/4611686018427387904)*table[0] + (s[1][i]/4611686018427387904)*table[3]
+//@ + havoc res
+//@ + forget
+//@ cut after def mask #3
+//@ + lemma divsplit(s[0][i], 1152921504606846976, 4)
+//@ + lemma divsplit(s[1][i], 1152921504606846976, 4)
+//@ + invariant[window2] 0 <= i && i <= 3 && res == 16*r0 + (s[0][i]/1152921504606846976)*table[0] + (s[1][i]/1152921504606846976)*table[3]
+//@ + havoc res
+//@ + forget
+//@ cut after def mask #4
+//@ + lemma divsplit(s[0][i], 288230376151711744, 4)
+//@ + lemma divsplit(s[1][i], 288230376151711744, 4)
+//@ + invariant[window3] 0 <= i && i <= 3 && res == 64*r0 + (s[0][i]/288230376151711744)*table[0] + (s[1][i]/288230376151711744)*table[3]
+//@ + havoc res
+//@ + forget
+//@ cut after def mask #5
+//@ + lemma divsplit(s[0][i], 72057594037927936, 4)
+//@ + lemma divsplit(s[1][i], 72057594037927936, 4)
+//@ + invariant[window4] 0 <= i && i <= 3 && res == 256*r0 + (s[0][i]/72057594037927936)*table[0] + (s[1][i]/72057594037927936)*table[3]
+//@ + havoc res
+//@ + forget
+//@ cut after def mask #6
+//@ + lemma divsplit(s[0][i], 18014398509481984, 4)
+//@ + lemma divsplit(s[1][i], 18014398509481984, 4)
+//@ + invariant[window5] 0 <= i && i <= 3 && res == 1024*r0 + (s[0][i]/18014398509481984)*table[0] + (s[1][i]/18014398509481984)*table[3]
+//@ + havoc res
+//@ + forget
+//@ cut after def mask #7
+//@ + lemma divsplit(s[0][i], 4503599627370496, 4)
+//@ + lemma divsplit(s[1][i], 4503599627370496, 4)
+//@ + invariant[window6] 0 <= i && i <= 3 && res == 4096*r0 + (s[0][i]/4503599627370496)*table[0] + (s[1][i]/4503599627370496)*table[3]
+//@ + havoc res
+//@ + forget
+//@ cut after def mask #8
+//@ + lemma divsplit(s[0][i], 1125899906842624, 4)
+//@ + lemma divsplit(s[1][i], 1125899906842624, 4)
+//@ + invariant[window7] 0 <= i && i <= 3 && res == 16384*r0 + (s[0][i]/1125899906842624)*table[0] + (s[1][i]/1125899906842624)*table[3]
+//@ + havoc res
+//@ + forget
+//@ cut after def mask #9
+//@ + lemma divsplit(s[0][i], 281474976710656, 4)
+//@ + lemma divsplit(s[1][i], 281474976710656, 4)
+//@ + invariant[window8] 0 <= i && i <= 3 && res == 65536*r0 + (s[0][i]/281474976710656)*table[0] + (s[1][i]/281474976710656)*table[3]
+//@ + havoc res
+//@ + forget
+//@ cut after def mask #10
+//@ + lemma divsplit(s[0][i], 70368744177664, 4)
+//@ + lemma divsplit(s[1][i], 70368744177664, 4)
+//@ + invariant[window9] 0 <= i && i <= 3 && res == 262144*r0 + (s[0][i]/70368744177664)*table[0] + (s[1][i]/70368744177664)*table[3]
+//@ + havoc res
+//@ + forget
+//@ cut after def mask #11
+//@ + lemma divsplit(s[0][i], 17592186044416, 4)
+//@ + lemma divsplit(s[1][i], 17592186044416, 4)
+//@ + invariant[window10] 0 <= i && i <= 3 && res == 1048576*r0 + (s[0][i]/17592186044416)*table[0] + (s[1][i]/17592186044416)*table[3]
+//@ + havoc res
+//@ + forget
+//@ cut after def mask #12
+//@ + lemma divsplit(s[0][i], 4398046511104, 4)
+//@ + lemma divsplit(s[1][i], 4398046511104, 4)
+//@ + invariant[window11] 0 <= i && i <= 3 && res == 4194304*r0 + (s[0][i]/4398046511104)*table[0] + (s[1][i]/4398046511104)*table[3]
+//@ + havoc res
+//@ + forget
+//@ cut after def mask #13
+//@ + lemma divsplit(s[0][i], 1099511627776, 4)
+//@ + lemma divsplit(s[1][i], 1099511627776, 4)
+//@ + invariant[window12] 0 <= i && i <= 3 && res == 16777216*r0 + (s[0][i]/1099511627776)*table[0] + (s[1][i]/1099511627776)*table[3]
+//@ + havoc res
+//@ + forget
+//@ cut after def mask #14
+//@ + lemma divsplit(s[0][i], 274877906944, 4)
+//@ + lemma divsplit(s[1][i], 274877906944, 4)
+//@ + invariant[window13] 0 <= i && i <= 3 && res == 67108864*r0 + (s[0][i]/274877906944)*table[0] + (s[1][i]/274877906944)*table[3]
+//@ + havoc res
+//@ + forget
+//@ cut after def mask #15
+//@ + lemma divsplit(s[0][i], 68719476736, 4)
+//@ + lemma divsplit(s[1][i], 68719476736, 4)
+//@ + invariant[window14] 0 <= i && i <= 3 && res == 268435456*r0 + (s[0][i]/68719476736)*table[0] + (s[1][i]/68719476736)*table[3]
+//@ + havoc res
+//@ + forget
+//@ cut after def mask #16
+//@ + lemma divsplit(s[0][i], 17179869184, 4)
+//@ + lemma divsplit(s[1][i], 17179869184, 4)
+//@ + invariant[window15] 0 <= i && i <= 3 && res == 1073741824*r0 + (s[0][i]/17179869184)*table[0] + (s[1][i]/17179869184)*table[3]
+//@ + havoc res
+//@ + forget
+//@ cut after def mask #17
+//@ + lemma divsplit(s[0][i], 4294967296, 4)
+//@ + lemma divsplit(s[1][i], 4294967296, 4)
+//@ + invariant[window16] 0 <= i && i <= 3 && res == 4294967296*r0 + (s[0][i]/4294967296)*table[0] + (s[1][i]/4294967296)*table[3]
+//@ + havoc res
+//@ + forget
+//@ cut after def mask #18
+//@ + lemma divsplit(s[0][i], 1073741824, 4)
+//@ + lemma divsplit(s[1][i], 1073741824, 4)
+//@ + invariant[window17] 0 <= i && i <= 3 && res == 17179869184*r0 + (s[0][i]/1073741824)*table[0] + (s[1][i]/1073741824)*table[3]
+//@ + havoc res
+//@ + forget
+//@ cut after def mask #19
+//@ + lemma divsplit(s[0][i], 268435456, 4)
+//@ + lemma divsplit(s[1][i], 268435456, 4)
+//@ + invariant[window18] 0 <= i && i <= 3 && res == 68719476736*r0 + (s[0][i]/268435456)*table[0] + (s[1][i]/268435456)*table[3]
+//@ + havoc res
+//@ + forget
+//@ cut after def mask #20
+//@ + lemma divsplit(s[0][i], 67108864, 4)
+//@ + lemma divsplit(s[1][i], 67108864, 4)
+//@ + invariant[window19] 0 <= i && i <= 3 && res == 274877906944*r0 + (s[0][i]/67108864)*table[0] + (s[1][i]/67108864)*table[3]
+//@ + havoc res
+//@ + forget
+//@ cut after def mask #21
+//@ + lemma divsplit(s[0][i], 16777216, 4)
+//@ + lemma divsplit(s[1][i], 16777216, 4)
+//@ + invariant[window20] 0 <= i && i <= 3 && res == 1099511627776*r0 + (s[0][i]/16777216)*table[0] + (s[1][i]/16777216)*table[3]
+//@ + havoc res
+//@ + forget
+//@ cut after def mask #22
+//@ + lemma divsplit(s[0][i], 4194304, 4)
+//@ + lemma divsplit(s[1][i], 4194304, 4)
+//@ + invariant[window21] 0 <= i && i <= 3 && res == 4398046511104*r0 + (s[0][i]/4194304)*table[0] + (s[1][i]/4194304)*table[3]
+//@ + havoc res
+//@ + forget
+//@ cut after def mask #23
+//@ + lemma divsplit(s[0][i], 1048576, 4)
+//@ + lemma divsplit(s[1][i], 1048576, 4)
+//@ + invariant[window22] 0 <= i && i <= 3 && res == 17592186044416*r0 + (s[0][i]/1048576)*table[0] + (s[1][i]/1048576)*table[3]
+//@ + havoc res
+//@ + forget
+//@ cut after def mask #24
+//@ + lemma divsplit(s[0][i], 262144, 4)
+//@ + lemma divsplit(s[1][i], 262144, 4)
+//@ + invariant[window23] 0 <= i && i <= 3 && res == 70368744177664*r0 + (s[0][i]/262144)*table[0] + (s[1][i]/262144)*table[3]
+//@ + havoc res
+//@ + forget
+//@ cut after def mask #25
+//@ + lemma divsplit(s[0][i], 65536, 4)
+//@ + lemma divsplit(s[1][i], 65536, 4)
+//@ + invariant[window24] 0 <= i && i <= 3 && res == 281474976710656*r0 + (s[0][i]/65536)*table[0] + (s[1][i]/65536)*table[3]
+//@ + havoc res
+//@ + forget
+//@ cut after def mask #26
+//@ + lemma divsplit(s[0][i], 16384, 4)
+//@ + lemma divsplit(s[1][i], 16384, 4)
+//@ + invariant[window25] 0 <= i && i <= 3 && res == 1125899906842624*r0 + (s[0][i]/16384)*table[0] + (s[1][i]/16384)*table[3]
+//@ + havoc res
+//@ + forget
+//@ cut after def mask #27
+//@ + lemma divsplit(s[0][i], 4096, 4)
+//@ + lemma divsplit(s[1][i], 4096, 4)
+//@ + invariant[window26] 0 <= i && i <= 3 && res == 4503599627370496*r0 + (s[0][i]/4096)*table[0] + (s[1][i]/4096)*table[3]
+//@ + havoc res
+//@ + forget
+//@ cut after def mask #28
+//@ + lemma divsplit(s[0][i], 1024, 4)
+//@ + lemma divsplit(s[1][i], 1024, 4)
+//@ + invariant[window27] 0 <= i && i <= 3 && res == 18014398509481984*r0 + (s[0][i]/1024)*table[0] + (s[1][i]/1024)*table[3]
+//@ + havoc res
+//@ + forget
+//@ cut after def mask #29
+//@ + lemma divsplit(s[0][i], 256, 4)
+//@ + lemma divsplit(s[1][i], 256, 4)
+//@ + invariant[window28] 0 <= i && i <= 3 && res == 72057594037927936*r0 + (s[0][i]/256)*table[0] + (s[1][i]/256)*table[3]
+//@ + havoc res
+//@ + forget
+//@ cut after def mask #30
+//@ + lemma divsplit(s[0][i], 64, 4)
+//@ + lemma divsplit(s[1][i], 64, 4)
+//@ + invariant[window29] 0 <= i && i <= 3 && res == 288230376151711744*r0 + (s[0][i]/64)*table[0] + (s[1][i]/64)*table[3]
+//@ + havoc res
+//@ + forget
+//@ cut after def mask #31
+//@ + lemma divsplit(s[0][i], 16, 4)
+//@ + lemma divsplit(s[1][i], 16, 4)
+//@ + invariant[window30] 0 <= i && i <= 3 && res == 1152921504606846976*r0 + (s[0][i]/16)*table[0] + (s[1][i]/16)*table[3]
+//@ + havoc res
+//@ + forget
+//@ cut after def mask #32
+//@ + lemma divsplit(s[0][i], 4, 4)
+//@ + lemma divsplit(s[1][i], 4, 4)
+//@ + invariant[window31] 0 <= i && i <= 3 && res == 4611686018427387904*r0 + (s[0][i]/4)*table[0] + (s[1][i]/4)*table[3]
+//@ + havoc res
+//@ + forget
+//@ cut after def mask #33
+//@ + lemma divsplit(s[0][i], 1, 4)
+//@ + lemma divsplit(s[1][i], 1, 4)
+//@ + invariant[window32] 0 <= i && i <= 3 && res == 18446744073709551616*r0 + (s[0][i]/1)*table[0] + (s[1][i]/1)*table[3]
+//@ + havoc res
+//@ + forget
+//@ ensures[value] *p == bigmod(abs(*s1), qof(fr)) * ite(*s1 < 0, -1, 1) * old(*p1) + bigmod(abs(*s2), qof(fr)) * ite(*s2 < 0, -1, 1) * old(*p2)
+//@ ensures[result] result == p
+//@ modifies p
+//@ end
+
+//@ func G1Jac.JointScalarMultiplicationBase
+//@ layer module G1Jac G1Affine bigint big.Int
+//@ alias none
+//@ ghost r0 = 0
+//@ loop 0
+//@ + invariant[words] -1 <= i && i <= 3 && res == (ite(i == 3, 0, ite(i == 2, s[0][3], ite(i == 1, s[0][2] + s[0][3]*18446744073709551616, ite(i == 0, s[0][1] + s[0][2]*18446744073709551616 + s[0][3]*340282366920938463463374607431768211456, s[0][0] + s[0][1]*18446744073709551616 + s[0][2]*340282366920938463463374607431768211456 + s[0][3]*6277101735386680763835789423207666416102355444464034512896)))))*table[0] + (ite(i == 3, 0, ite(i == 2, s[1][3], ite(i == 1, s[1][2] + s[1][3]*18446744073709551616, ite(i == 0, s[1][1] + s[1][2]*18446744073709551616 + s[1][3]*340282366920938463463374607431768211456, s[1][0] + s[1][1]*18446744073709551616 + s[1][2]*340282366920938463463374607431768211456 + s[1][3]*6277101735386680763835789423207666416102355444464034512896)))))*table[3]
+//@ + ghost-post r0 = res
+//@ cut after def mask #2
+//@ + lemma divsplit(s[0][i], 4611686018427387904, 4)
+//@ + lemma divsplit(s[1][i], 4611686018427387904, 4)
+//@ + invariant[window1] 0 <= i && i <= 3 && res == 4*r0 + (s[0][i]/4611686018427387904)*table[0] + (s[1][i]/4611686018427387904)*table[3]
+//@ + havoc res
+//@ + forget
+//@ cut after def mask #3
+//@ + lemma divsplit(s[0][i], 1152921504606846976, 4)
+//@ + lemma divsplit(s[1][i], 1152921504606846976, 4)
+//@ + invariant[window2] 0 <= i && i <= 3 && res == 16*r0 + (s[0][i]/1152921504606846976)*table[0] + (s[1][i]/1152921504606846976)*table[3]
+//@ + havoc res
+//@ + forget
+//@ cut after def mask #4
+//@ + lemma divsplit(s[0][i], 288230376151711744, 4)
+//@ + lemma divsplit(s[1][i], 288230376151711744, 4)
+//@ + invariant[window3] 0 <= i && i <= 3 && res == 64*r0 + (s[0][i]/288230376151711744)*table[0] + (s[1][i]/288230376151711744)*table[3]
+//@ + havoc res
+//@ + forget
+//@ cut after def mask #5
+//@ + lemma divsplit(s[0][i], 72057594037927936, 4)
+//@ + lemma divsplit(s[1][i], 72057594037927936, 4)
+//@ + invariant[window4] 0 <= i && i <= 3 && res == 256*r0 + (s[0][i]/72057594037927936)*table[0] + (s[1][i]/72057594037927936)*table[3]
+//@ + havoc res
+//@ + forget
+//@ cut after def mask #6
+//@ + lemma divsplit(s[0][i], 18014398509481984, 4)
+//@ + lemma divsplit(s[1][i], 18014398509481984, 4)
+//@ + invariant[window5] 0 <= i && i <= 3 && res == 1024*r0 + (s[0][i]/18014398509481984)*table[0] + (s[1][i]/18014398509481984)*table[3]
+//@ + havoc res
+//@ + forget
+//@ cut after def mask #7
+//@ + lemma divsplit(s[0][i], 4503599627370496, 4)
+//@ + lemma divsplit(s[1][i], 4503599627370496, 4)
+//@ + invariant[window6] 0 <= i && i <= 3 && res == 4096*r0 + (s[0][i]/4503599627370496)*table[0] + (s[1][i]/4503599627370496)*table[3]
+//@ + havoc res
+//@ + forget
+//@ cut after def mask #8
+//@ + lemma divsplit(s[0][i], 1125899906842624, 4)
+//@ + lemma divsplit(s[1][i], 1125899906842624, 4)
+//@ + invariant[window7] 0 <= i && i <= 3 && res == 16384*r0 + (s[0][i]/1125899906842624)*table[0] + (s[1][i]/1125899906842624)*table[3]
+//@ + havoc res
+//@ + forget
+//@ cut after def mask #9
+//@ + lemma divsplit(s[0][i], 281474976710656, 4)
+//@ + lemma divsplit(s[1][i], 281474976710656, 4)
+//@ + invariant[window8] 0 <= i && i <= 3 && res == 65536*r0 + (s[0][i]/281474976710656)*table[0] + (s[1][i]/281474976710656)*table[3]
+//@ + havoc res
+//@ + forget
+//@ cut after def mask #10
+//@ + lemma divsplit(s[0][i], 70368744177664, 4)
+//@ + lemma divsplit(s[1][i], 70368744177664, 4)
+//@ + invariant[window9] 0 <= i && i <= 3 && res == 262144*r0 + (s[0][i]/70368744177664)*table[0] + (s[1][i]/70368744177664)*table[3]
+//@ + havoc res
+//@ + forget
+//@ cut after def mask #11
+//@ + lemma divsplit(s[0][i], 17592186044416, 4)
+//@ + lemma divsplit(s[1][i], 17592186044416, 4)
+//@ + invariant[window10] 0 <= i && i <= 3 && res == 1048576*r0 + (s[0][i]/17592186044416)*table[0] + (s[1][i]/17592186044416)*table[3]
+//@ + havoc res
+//@ + forget
+//@ cut after def mask #12
+//@ + lemma divsplit(s[0][i], 4398046511104, 4)
+//@ + lemma divsplit(s[1][i], 4398046511104, 4)
+//@ + invariant[window11] 0 <= i && i <= 3 && res == 4194304*r0 + (s[0][i]/4398046511104)*table[0] + (s[1][i]/4398046511104)*table[3]
+//@ + havoc res
+//@ + forget
+//@ cut after def mask #13
+//@ + lemma divsplit(s[0][i], 1099511627776, 4)
+//@ + lemma divsplit(s[1][i], 1099511627776, 4)
+//@ + invariant[window12] 0 <= i && i <= 3 && res == 16777216*r0 + (s[0][i]/1099511627776)*table[0] + (s[1][i]/1099511627776)*table[3]
+//@ + havoc res
+//@ + forget
+//@ cut after def mask #14
+//@ + lemma divsplit(s[0][i], 274877906944, 4)
+//@ + lemma divsplit(s[1][i], 274877906944, 4)
+//@ + invariant[window13] 0 <= i && i <= 3 && res == 67108864*r0 + (s[0][i]/274877906944)*table[0] + (s[1][i]/274877906944)*table[3]
+//@ + havoc res
+//@ + forget
+//@ cut after def mask #15
+//@ + lemma divsplit(s[0][i], 68719476736, 4)
+//@ + lemma divsplit(s[1][i], 68719476736, 4)
+//@ + invariant[window14] 0 <= i && i <= 3 && res == 268435456*r0 + (s[0][i]/68719476736)*table[0] + (s[1][i]/68719476736)*table[3]
+//@ + havoc res
+//@ + forget
+//@ cut after def mask #16
+//@ + lemma divsplit(s[0][i], 17179869184, 4)
+//@ + lemma divsplit(s[1][i], 17179869184, 4)
+//@ + invariant[window15] 0 <= i && i <= 3 && res == 1073741824*r0 + (s[0][i]/17179869184)*table[0] + (s[1][i]/17179869184)*table[3]
+//@ + havoc res
+//@ + forget
+//@ cut after def mask #17
+//@ + lemma divsplit(s[0][i], 4294967296, 4)
+//@ + lemma divsplit(s[1][i], 4294967296, 4)
+//@ + invariant[window16] 0 <= i && i <= 3 && res == 4294967296*r0 + (s[0][i]/4294967296)*table[0] + (s[1][i]/4294967296)*table[3]
+//@ + havoc res
+//@ + forget
+//@ cut after def mask #18
+//@ + lemma divsplit(s[0][i], 1073741824, 4)
+//@ + lemma divsplit(s[1][i], 1073741824, 4)
+//@ + invariant[window17] 0 <= i && i <= 3 && res == 17179869184*r0 + (s[0][i]/1073741824)*table[0] + (s[1][i]/1073741824)*table[3]
+//@ + havoc res
+//@ + forget
+//@ cut after def mask #19
+//@ + lemma divsplit(s[0][i], 268435456, 4)
+//@ + lemma divsplit(s[1][i], 268435456, 4)
+//@ + invariant[window18] 0 <= i && i <= 3 && res == 68719476736*r0 + (s[0][i]/268435456)*table[0] + (s[1][i]/268435456)*table[3]
+//@ + havoc res
+//@ + forget
+//@ cut after def mask #20
+//@ + lemma divsplit(s[0][i], 67108864, 4)
+//@ + lemma divsplit(s[1][i], 67108864, 4)
+//@ + invariant[window19] 0 <= i && i <= 3 && res == 274877906944*r0 + (s[0][i]/67108864)*table[0] + (s[1][i]/67108864)*table[3]
+//@ + havoc res
+//@ + forget
+//@ cut after def mask #21
+//@ + lemma divsplit(s[0][i], 16777216, 4)
+//@ + lemma divsplit(s[1][i], 16777216, 4)
+//@ + invariant[window20] 0 <= i && i <= 3 && res == 1099511627776*r0 + (s[0][i]/16777216)*table[0] + (s[1][i]/16777216)*table[3]
+//@ + havoc res
+//@ + forget
+//@ cut after def mask #22
+//@ + lemma divsplit(s[0][i], 4194304, 4)
+//@ + lemma divsplit(s[1][i], 4194304, 4)
+//@ + invariant[window21] 0 <= i && i <= 3 && res == 4398046511104*r0 + (s[0][i]/4194304)*table[0] + (s[1][i]/4194304)*table[3]
+//@ + havoc res
+//@ + forget
+//@ cut after def mask #23
+//@ + lemma divsplit(s[0][i], 1048576, 4)
+//@ + lemma divsplit(s[1][i], 1048576, 4)
+//@ + invariant[window22] 0 <= i && i <= 3 && res == 17592186044416*r0 + (s[0][i]/1048576)*table[0] + (s[1][i]/1048576)*table[3]
+//@ + havoc res
+//@ + forget
+//@ cut after def mask #24
+//@ + lemma divsplit(s[0][i], 262144, 4)
+//@ + lemma divsplit(s[1][i], 262144, 4)
+//@ + invariant[window23] 0 <= i && i <= 3 && res == 70368744177664*r0 + (s[0][i]/262144)*table[0] + (s[1][i]/262144)*table[3]
+//@ + havoc res
+//@ + forget
+//@ cut after def mask #25
+//@ + lemma divsplit(s[0][i], 65536, 4)
+//@ + lemma divsplit(s[1][i], 65536, 4)
+//@ + invariant[window24] 0 <= i && i <= 3 && res == 281474976710656*r0 + (s[0][i]/65536)*table[0] + (s[1][i]/65536)*table[3]
+//@ + havoc res
+//@ + forget
+//@ cut after def mask #26
+//@ + lemma divsplit(s[0][i], 16384, 4)
+//@ + lemma divsplit(s[1][i], 16384, 4)
+//@ + invariant[window25] 0 <= i && i <= 3 && res == 1125899906842624*r0 + (s[0][i]/16384)*table[0] + (s[1][i]/16384)*table[3]
+//@ + havoc res
+//@ + forget
+//@ cut after def mask #27
+//@ + lemma divsplit(s[0][i], 4096, 4)
+//@ + lemma divsplit(s[1][i], 4096, 4)
+//@ + invariant[window26] 0 <= i && i <= 3 && res == 4503599627370496*r0 + (s[0][i]/4096)*table[0] + (s[1][i]/4096)*table[3]
+//@ + havoc res
+//@ + forget
+//@ cut after def mask #28
+//@ + lemma divsplit(s[0][i], 1024, 4)
+//@ + lemma divsplit(s[1][i], 1024, 4)
+//@ + invariant[window27] 0 <= i && i <= 3 && res == 18014398509481984*r0 + (s[0][i]/1024)*table[0] + (s[1][i]/1024)*table[3]
+//@ + havoc res
+//@ + forget
+//@ cut after def mask #29
+//@ + lemma divsplit(s[0][i], 256, 4)
+//@ + lemma divsplit(s[1][i], 256, 4)
+//@ + invariant[window28] 0 <= i && i <= 3 && res == 72057594037927936*r0 + (s[0][i]/256)*table[0] + (s[1][i]/256)*table[3]
+//@ + havoc res
+//@ + forget
+//@ cut after def mask #30
+//@ + lemma divsplit(s[0][i], 64, 4)
+//@ + lemma divsplit(s[1][i], 64, 4)
+//@ + invariant[window29] 0 <= i && i <= 3 && res == 288230376151711744*r0 + (s[0][i]/64)*table[0] + (s[1][i]/64)*table[3]
+//@ + havoc res
+//@ + forget
+//@ cut after def mask #31
+//@ + lemma divsplit(s[0][i], 16, 4)
+//@ + lemma divsplit(s[1][i], 16, 4)
+//@ + invariant[window30] 0 <= i && i <= 3 && res == 1152921504606846976*r0 + (s[0][i]/16)*table[0] + (s[1][i]/16)*table[3]
+//@ + havoc res
+//@ + forget
+//@ cut after def mask #32
+//@ + lemma divsplit(s[0][i], 4, 4)
+//@ + lemma divsplit(s[1][i], 4, 4)
+//@ + invariant[window31] 0 <= i && i <= 3 && res == 4611686018427387904*r0 + (s[0][i]/4)*table[0] + (s[1][i]/4)*table[3]
+//@ + havoc res
+//@ + forget
+//@ cut after def mask #33
+//@ + lemma divsplit(s[0][i], 1, 4)
+//@ + lemma divsplit(s[1][i], 1, 4)
+//@ + invariant[window32] 0 <= i && i <= 3 && res == 18446744073709551616*r0 + (s[0][i]/1)*table[0] + (s[1][i]/1)*table[3]
+//@ + havoc res
+//@ + forget
+//@ ensures[value] *p == bigmod(abs(*s1), qof(fr)) * ite(*s1 < 0, -1, 1) * g1Gen + bigmod(abs(*s2), qof(fr)) * ite(*s2 < 0, -1, 1) * old(*a)
+//@ ensures[result] result == p
+//@ modifies p
+//@ end
+
+//@ func G1Jac.ScalarMultiplication
+//@ layer module G1Jac bigint big.Int
+//@ ensures[value] *p == *s * old(*a)
+//@ ensures[result] result == p
+//@ modifies p
+//@ end
+
+//@ func G1Affine.ScalarMultiplication
+//@ layer module G1Jac G1Affine bigint big.Int
+//@ ensures[value] *p == *s * old(*a)
+//@ ensures[result] result == p
+//@ modifies p
+//@ end
+
+//@ func G1Affine.ScalarMultiplicationBase
+//@ layer module G1Jac G1Affine bigint big.Int
+//@ ensures[value] *p == *s * g1Gen
+//@ ensures[result] result == p
+//@ modifies p
+//@ end
